@@ -63,6 +63,17 @@ type Case struct {
 	SPP   int
 	Seeds []uint64
 	Jobs  []Job
+	// Dims, when present, gives frame i of the pool its own size (a shared parameters object
+	// then serves images of different geometry, as a Transcoder working through a study does)
+	Dims [][2]int `json:",omitempty"`
+}
+
+func (c *Case) dims(frame int) (int, int) {
+	if len(c.Dims) > 0 {
+		d := c.Dims[frame%len(c.Seeds)%len(c.Dims)]
+		return d[0], d[1]
+	}
+	return c.W, c.H
 }
 
 func Gen(t *rapid.T) *Case {
@@ -71,6 +82,11 @@ func Gen(t *rapid.T) *Case {
 	np := rapid.IntRange(2, 5).Draw(t, "pool")
 	for i := 0; i < np; i++ {
 		c.Seeds = append(c.Seeds, rapid.Uint64().Draw(t, "seed"))
+	}
+	if rapid.Bool().Draw(t, "mixed-sizes") {
+		for i := 0; i < np; i++ {
+			c.Dims = append(c.Dims, [2]int{rapid.OneOf(rapid.IntRange(1, 20), rapid.IntRange(33, 80)).Draw(t, "fw"), rapid.OneOf(rapid.IntRange(1, 20), rapid.IntRange(33, 80)).Draw(t, "fh")})
+		}
 	}
 	maxJobs := 24
 	if core.Thorough() {
@@ -91,16 +107,18 @@ func Gen(t *rapid.T) *Case {
 	return c
 }
 
-func (c *Case) info() *imagetypes.FrameInfo {
+func (c *Case) info(frame int) *imagetypes.FrameInfo {
 	pi := "MONOCHROME2"
 	if c.SPP == 3 {
 		pi = "RGB"
 	}
-	return &imagetypes.FrameInfo{Width: uint16(c.W), Height: uint16(c.H), BitsAllocated: 8, BitsStored: 8, HighBit: 7, SamplesPerPixel: uint16(c.SPP), PhotometricInterpretation: pi}
+	w, h := c.dims(frame)
+	return &imagetypes.FrameInfo{Width: uint16(w), Height: uint16(h), BitsAllocated: 8, BitsStored: 8, HighBit: 7, SamplesPerPixel: uint16(c.SPP), PhotometricInterpretation: pi}
 }
 
 func (c *Case) frame(i int) []byte {
-	im := &gen.Image{W: c.W, H: c.H, C: c.SPP, P: 8, Class: "noise", Seed: c.Seeds[i%len(c.Seeds)]}
+	w, h := c.dims(i)
+	im := &gen.Image{W: w, H: h, C: c.SPP, P: 8, Class: "noise", Seed: c.Seeds[i%len(c.Seeds)]}
 	return im.Bytes()
 }
 
@@ -111,9 +129,10 @@ type result struct {
 
 func runJob(c *Case, j Job, shared map[string]dcodec.Parameters, encoded map[string][]byte) result {
 	px := c.frame(j.Frame)
+	fw, fh := c.dims(j.Frame)
 	switch j.Target {
 	case "j2kobj":
-		p := jpeg2000.DefaultEncodeParams(c.W, c.H, c.SPP, 8, false)
+		p := jpeg2000.DefaultEncodeParams(fw, fh, c.SPP, 8, false)
 		p.NumLevels = 2
 		s, err := jpeg2000.NewEncoder(p).Encode(px)
 		if err != nil {
@@ -128,7 +147,7 @@ func runJob(c *Case, j Job, shared map[string]dcodec.Parameters, encoded map[str
 		}
 		return result{out: d.GetPixelData()}
 	case "jlossless":
-		s, err := jl.Encode(px, c.W, c.H, c.SPP, 8, 4)
+		s, err := jl.Encode(px, fw, fh, c.SPP, 8, 4)
 		if err != nil {
 			return result{err: err.Error()}
 		}
@@ -141,7 +160,7 @@ func runJob(c *Case, j Job, shared map[string]dcodec.Parameters, encoded map[str
 		}
 		return result{out: o}
 	case "jls":
-		s, err := jlsl.Encode(px, c.W, c.H, c.SPP, 8)
+		s, err := jlsl.Encode(px, fw, fh, c.SPP, 8)
 		if err != nil {
 			return result{err: err.Error()}
 		}
@@ -165,7 +184,7 @@ func runJob(c *Case, j Job, shared map[string]dcodec.Parameters, encoded map[str
 	case "shared":
 		par = shared[j.Target]
 	}
-	info := c.info()
+	info := c.info(j.Frame)
 	src := codec.NewTestPixelData(info)
 	if j.Op == "encode" {
 		_ = src.AddFrame(px)
@@ -257,9 +276,16 @@ func Check(c *Case) (o core.Outcome) {
 			encoded[key] = r.out
 		}
 	}
+	// "run alone": the same call with a parameters object in the state GetDefaultParameters()
+	// returns it. The shared objects themselves are first used in the concurrent phase, so a
+	// call that writes to the object it is given cannot hide behind an earlier solo run.
 	solo := make([]result, len(c.Jobs))
 	for i, j := range c.Jobs {
-		solo[i] = runJob(c, j, shared, encoded)
+		sj := j
+		if sj.Par == "shared" {
+			sj.Par = "private"
+		}
+		solo[i] = runJob(c, sj, shared, encoded)
 		o.Label("target=%s", j.Target)
 		if j.Par == "shared" {
 			o.Label("shared-params")
@@ -316,6 +342,21 @@ func Check(c *Case) (o core.Outcome) {
 		o.Fail = &core.Failure{Kind: "data-race", Sig: sig, Msg: rep}
 		return
 	}
+	// the sequential interleaving, after everything else has used the shared objects: each
+	// shared-parameter call once more, one at a time
+	for i, j := range c.Jobs {
+		if j.Par != "shared" {
+			continue
+		}
+		if r := runJob(c, j, shared, encoded); r.err != solo[i].err || !bytes.Equal(r.out, solo[i].out) {
+			o.Fail = core.Failf("result-differs-after-sharing", "job %d (%+v, frame %v): with the shared parameters object, after the other calls used it, the result differs from the same job run alone (err %q vs %q, %d vs %d bytes)",
+				i, j, c.Dims, r.err, solo[i].err, len(r.out), len(solo[i].out))
+			return
+		}
+	}
+	if len(c.Dims) > 0 {
+		o.Label("mixed-frame-sizes")
+	}
 	return
 }
 
@@ -336,6 +377,9 @@ func TestSharedParams(t *testing.T) {
 				c.Jobs = append(c.Jobs, Job{Target: k, Op: []string{"encode", "decode"}[i%2], Frame: i % 3, Par: "shared", Spin: i % 3})
 			}
 			core.Eval(t, ID, "quota", c, Check)
+			// the same with a pool of frames of very different sizes
+			m := &Case{Procs: procs, W: 12, H: 9, SPP: 1, Seeds: []uint64{1, 2, 3}, Dims: [][2]int{{8, 8}, {64, 64}, {40, 3}}, Jobs: c.Jobs}
+			core.Eval(t, ID, "quota", m, Check)
 		}
 	}
 }
